@@ -1,6 +1,7 @@
 package main
 
 import (
+	"strconv"
 	"flag"
 	"fmt"
 	"os"
@@ -123,7 +124,15 @@ func workMain(fs *flag.FlagSet, args []string) {
 	known := fs.String("known", "", "")
 	hashKeep := fs.Int("hashkeep", 0, "keep trace hashes for run indices below this")
 	sweep := fs.Int("sweep", 0, "number of workloads (lowest indices) to sweep completely; -1 = all")
+	force := fs.String("force", "", "label=value,... : tape choices pinned for every run of this invocation")
 	fs.Parse(args)
+	forced := map[string]int{}
+	for _, kv := range strings.Split(*force, ",") {
+		if i := strings.Index(kv, "="); i > 0 {
+			v, _ := strconv.Atoi(kv[i+1:])
+			forced[kv[:i]] = v
+		}
+	}
 	p := registry[*propID]
 	if p == nil {
 		die2("unknown property %q", *propID)
@@ -202,6 +211,9 @@ func workMain(fs *flag.FlagSet, args []string) {
 		}
 		s := runSeed(*seed, p.ID, idx)
 		tape := rt.NewTape(s)
+		if len(forced) > 0 {
+			tape.Override = forced
+		}
 		record := len(o.Samples) < 2 && *w == 0
 		res := execRun(p, tape, *tier, record)
 		account(idx, -1, res, tape, record)
